@@ -36,6 +36,7 @@ def judge(recs, nshards=16):
 def run(out, tier, seed):
     cases = export(tier)
     recs = fw.pool_map('harness.fnwork', 'scale_case', cases)
+    ninexact = sum(1 for r in recs if r.get('inexact'))
     jobs, results = judge(recs)
     for j, res in zip(jobs, results):
         for clause, keys in res.items():
@@ -58,7 +59,7 @@ def run(out, tier, seed):
                        'min_range such that the span is non-zero']
     cov = {'states': 2 * len(jobs), 'transitions': len(jobs), 'entries_judged_by_tlc': len(recs), 'traces_validated_against_impl': len(recs), 'evaluations': len(recs),
            'distinct_nontrivial': nontriv, 'rule': 'every case of Scaler!CaseSet through the transcription and through the real functions; non-trivial = steps present, min_range active or NaN present',
-           'by_mode': modes, 'exhaustive': True, 'checker_cmd': f'./check C19 --tier {tier}'}
+           'by_mode': modes, 'observed_off_lattice_approximated': ninexact, 'exhaustive': True, 'checker_cmd': f'./check C19 --tier {tier}'}
     return out.finish('model_checking', cov)
 
 
